@@ -396,6 +396,24 @@ def replay_group(cases_path, out_path):
                 clause = {"Vector": "reduce_value", "aggregate": "agg_value", "window": "window_value"}[how]
                 if st != "ok" or r is None or abs(r - want) > 1e-6 * max(abs(want), 1e-300):
                     F.add(clause, {"values": repr(vals), "function": f, "through": how}, r if st == "ok" else err, want, {})
+    # NaN is a value, not a missing cell: min / max are Python's own min / max over the non-None cells in row order, through
+    # every entry point alike
+    nan = float("nan")
+
+    def same(a, b):
+        return (a != a and b != b) or a == b
+    for vals in ([None, nan, 1.0, 4.0], [1.0, nan, 4.0], [4.0, 1.0, nan, None], [nan, nan], [2.0, None, nan, 1.0]):
+        present = [x for x in vals if x is not None]
+        t = Table({"k": ["g"] * len(vals), "v": list(vals)})
+        for f, want in (("min", min(present)), ("max", max(present))):
+            got = {"Vector": outcome_of(lambda: getattr(Vector(list(vals)), f)()),
+                   "aggregate": outcome_of(lambda: list(t.aggregate("k", **{f + "_over": "v"}).cols()[1])[0]),
+                   "window": outcome_of(lambda: list(t.window("k", **{f + "_over": "v"}).cols()[1])[0])}
+            for how, (st, r, err) in got.items():
+                executed += 1
+                if st != "ok" or r is None or not same(r, want):
+                    F.add({"Vector": "reduce_value", "aggregate": "agg_value", "window": "window_value"}[how],
+                          {"values": repr(vals), "function": f, "through": how}, repr(r) if st == "ok" else err, repr(want), {})
     # the reductions' own parameters: stdev(population=True) is the population formula over the NON-None values (None is
     # skipped, not counted), by keyword and by position
     import statistics
